@@ -32,7 +32,8 @@ func TestMain(m *testing.M) {
 		childMain()
 		return
 	}
-	kit.TestMain(m, 8000, 200000)
+	debug.SetGCPercent(400) // many small short-lived values per case; the heap stays small
+	kit.TestMain(m, 6500, 120000)
 }
 
 func TestC14(t *testing.T) {
@@ -47,7 +48,17 @@ func TestC14(t *testing.T) {
 			"registry (a style - mostly one that others are based on - is registered again under its id with another definition and now and then another parent, removed, added - also under an id " +
 			"that was a missing parent -, or modified in place), every id being resolved again after every change against the registry as it is then. Non-trivial: some query has a based-on chain of length >= 2 " +
 			"on which an element is inherited from an ancestor or an ancestor's element is overridden. Distinct: based-on vector + per-query (chain length, chain end, inherited, overridden, " +
-			"elements whose nearest definition lacks an attribute a farther one has) + per edit what it amounted to.",
+			"elements whose nearest definition lacks an attribute a farther one has) + per edit what it amounted to. " +
+			"Widened domain: one case in sixteen holds 11-70 styles (mostly one chain, every element defined at one to three places so that nearest definitions lie up to 69 levels away); " +
+			"one in eight draws its ids from a pool of ids that are prefixes of one another, differ only in case, padding (blank, TAB, newline) or Unicode composition, are astral, or are the " +
+			"ids of the predefined styles (which the generated style then replaces); based-on values and queries that miss a registered id by case / padding / one character; per style now and then a value " +
+			"class for every attribute value (the schema default, zero, negative, fractional, padded with blank/TAB/newline, upper case, astral characters, one value longer than 64 KiB), elements present without any attribute " +
+			"(w:spacing, w:ind, w:rFonts, w:pBdr), a style type left empty, and parts of a definition outside the 18 elements (w:next, w:default, no w:name, a built-in style, an explicit empty w:basedOn, table / row / cell property blocks); " +
+			"edits also through CreateQuickStyle on a registered id (refused) and ParseStylesFromXML / MergeStylesFromXML with a styles part written by the harness (own prefix, another prefix, truncated, empty); " +
+			"on the predefined registry, in one case of four, LoadStylesFromDocument is called first with such a styles part (as Open does); " +
+			"read-only calls (GetStylesByType, GetHeadingStyles, GetAllStyles, the five StyleInfo listings, GetPredefinedStyleNames/Configs, StyleExists, GetStyle) between the queries of every round; " +
+			"in one case of eight a second registry (another manager with the same ids and other values, or a Clone of the first taken before the first query) is queried alternately with the first; " +
+			"every id is resolved again on the final Clone, on the source next to it and on the source after the clone has been overwritten.",
 		Gen:       genCase,
 		Run:       run,
 		Findings:  findings,
@@ -57,6 +68,11 @@ func TestC14(t *testing.T) {
 			"formatting elements are inherited whole (a child's w:spacing replaces the parent's w:spacing), as the statement says",
 			"in a based-on cycle every member is an ancestor of every other; the walk stops at the first style met twice",
 			"the registry a query is answered from is what is registered at the time of the query: AddStyle under a registered id replaces, RemoveStyle makes the id unknown (a missing parent for its children), fields assigned to a registered style object (as CreateQuickStyle does after CreateCustomStyle) belong to its definition",
+			"style ids are compared as exact strings: ids that differ in case, padding or Unicode composition are different styles",
+			"an element that is present counts as the style's own setting whatever it holds (no attribute at all, a value equal to the schema default, zero, negative)",
+			"CreateQuickStyle for a registered id is refused and changes nothing; ParseStylesFromXML / MergeStylesFromXML that return an error change nothing, otherwise the registry is replaced by / extended (absent ids only) with the definitions they parsed (read from the same call on a scratch registry)",
+			"the read-only calls of the registry change nothing",
+			"LoadStylesFromDocument on a registry that holds the default styles: no data or data it cannot parse leave the default styles (its doc comment); definitions it does parse are taken as loaded",
 		},
 		MustSee: map[string]float64{
 			"depth>=3": 0.15, "depth>=6": 0.02, "missing-parent": 0.05, "inherit:depth>=2": 0.10, "override": 0.20,
@@ -69,6 +85,12 @@ func TestC14(t *testing.T) {
 			"edit": 0.25, "edit:replace": 0.10, "edit:remove": 0.05, "edit:add": 0.03, "edit:modify": 0.05, "edit:ancestor-of-resolved": 0.12,
 			"edit:changes-descendant": 0.08, "edit:far-ancestor-of-resolved": 0.03, "edit:rebase": 0.02, "edit:fills-missing-parent": 0.005,
 			"partial-over-full-parent": 0.10, "partial-spacing-over-full-parent": 0.02, "inherit-partial-element": 0.20,
+			"styles>=11": 0.03, "styles>=33": 0.01, "styles>=65": 0.003, "depth>=17": 0.01, "depth>=33": 0.004, "depth>=65": 0.001,
+			"inherit:depth>=16": 0.008, "inherit:depth>=32": 0.003, "inherit:depth>=64": 0.001, "registered>=65": 0.005,
+			"ids:differ-in-case-only": 0.01, "ids:differ-in-padding-only": 0.01, "ids:prefix-of-another": 0.03, "ids:predefined-replaced": 0.005,
+			"based-on:near-miss": 0.05, "query:near-miss": 0.03, "vals": 0.15, "vals:default": 0.03, "vals:zero": 0.02, "vals:pad": 0.01, "vals:long": 0.005,
+			"empty-element": 0.10, "extra": 0.25, "extra:tblPr": 0.10, "extra:trPr/tcPr": 0.05, "extra:empty-basedOn": 0.01,
+			"edit:refused": 0.01, "edit:xml-refused": 0.01, "load": 0.03, "probe": 0.20, "twin:fresh": 0.03, "twin:clone": 0.03,
 		},
 		Fixed: fixedCases,
 	})
@@ -101,6 +123,9 @@ func eighths(t *rapid.T, label string, k int) bool {
 	return rapid.SampledFrom(coins[k]).Draw(t, label)
 }
 
+// bigCoin: one case in sixteen
+var bigCoin = []bool{false, false, false, false, false, false, false, false, false, false, false, false, false, false, false, true}
+
 var coins = func() [9][]bool {
 	var c [9][]bool
 	for k := range c {
@@ -117,6 +142,16 @@ func genCase(t *rapid.T) Case {
 	c := Case{Predefined: eighths(t, "predefined", 2)}
 	n := rapid.SampledFrom([]int{1, 2, 3, 4, 5, 6, 7, 8, 9, 10, 2, 3, 4, 10}).Draw(t, "n")
 	mode := rapid.SampledFrom([]string{"chain", "tree", "tree", "mixed", "mixed", "free", "free", "ring"}).Draw(t, "mode")
+	// now and then a registry past the usual sizes (more than 10 / 16 / 32 / 64 styles, mostly one long chain)
+	big := rapid.SampledFrom(bigCoin).Draw(t, "big")
+	breakAt := -1
+	if big {
+		n = rapid.SampledFrom([]int{11, 12, 16, 17, 20, 32, 33, 40, 64, 65, 65, 70, 70}).Draw(t, "bign")
+		mode = rapid.SampledFrom([]string{"chain", "chain", "chain", "chain", "mixed", "ring"}).Draw(t, "bigmode")
+		if rapid.Bool().Draw(t, "bigbreak") { // a long chain is broken at most once
+			breakAt = rapid.IntRange(1, n-1).Draw(t, "breakat")
+		}
+	}
 	if !cycles && (mode == "free" || mode == "ring") {
 		// the cyclic shapes are kept out of the main run while the stack-overflow finding is open (counted in Run)
 		c.Excluded = mode
@@ -124,6 +159,8 @@ func genCase(t *rapid.T) Case {
 	}
 	density := rapid.SampledFrom([]int{1, 2, 4, 7}).Draw(t, "density") // eighths
 	fancy := eighths(t, "fancy", 2)
+	// ids that are prefixes of one another, differ in case / padding / composition only, or are the library's own
+	tricky := !fancy && n <= len(trickyIDs) && eighths(t, "tricky", 1)
 	ids := make([]string, n)
 	for i := range ids {
 		ids[i] = fmt.Sprintf("S%d", i)
@@ -132,26 +169,29 @@ func genCase(t *rapid.T) Case {
 			ids[i] = fmt.Sprintf(ids[i], i)
 		}
 	}
+	if tricky {
+		copy(ids, rapid.Permutation(trickyIDs).Draw(t, "trickyids"))
+	}
 	defs := make([]StyleDef, n)
 	for i := 0; i < n; i++ {
 		d := StyleDef{ID: ids[i], Idx: i}
-		d.Type = rapid.SampledFrom([]string{"paragraph", "paragraph", "paragraph", "paragraph", "character", "character", "table", "numbering"}).Draw(t, "type")
+		d.Type = rapid.SampledFrom([]string{"paragraph", "paragraph", "paragraph", "paragraph", "character", "character", "table", "numbering", ""}).Draw(t, "type")
 		d.Via = rapid.SampledFrom([]string{"add", "add", "add", "add", "add", "custom", "custom", "custom", "quick", "quick"}).Draw(t, "via")
 		// based-on
 		kind := "lower"
 		switch mode {
 		case "chain":
-			if eighths(t, "chainbreak", 1) {
+			if (!big && eighths(t, "chainbreak", 1)) || i == breakAt {
 				kind = rapid.SampledFrom([]string{"none", "missing", "predef"}).Draw(t, "kind")
 			} else {
 				kind = "prev"
 			}
 		case "tree":
-			kind = rapid.SampledFrom([]string{"lower", "lower", "lower", "prev", "none", "missing", "predef"}).Draw(t, "kind")
+			kind = rapid.SampledFrom([]string{"lower", "lower", "lower", "prev", "none", "missing", "predef", "near"}).Draw(t, "kind")
 		case "mixed":
-			kind = rapid.SampledFrom([]string{"lower", "prev", "prev", "none", "missing", "predef", "zero"}).Draw(t, "kind")
+			kind = rapid.SampledFrom([]string{"lower", "prev", "prev", "none", "missing", "predef", "zero", "near"}).Draw(t, "kind")
 		case "free":
-			kind = rapid.SampledFrom([]string{"any", "any", "any", "prev", "self", "none", "missing", "predef"}).Draw(t, "kind")
+			kind = rapid.SampledFrom([]string{"any", "any", "any", "prev", "self", "none", "missing", "predef", "near"}).Draw(t, "kind")
 		case "ring":
 			kind = "next"
 		}
@@ -179,9 +219,27 @@ func genCase(t *rapid.T) Case {
 		case "predef":
 			// an id of the predefined registry: a real parent when the case keeps that registry, a missing one otherwise
 			d.BasedOn = rapid.SampledFrom(predefinedIDs).Draw(t, "predef")
+		case "near":
+			// almost the id of a generated style (a missing parent, unless the case happens to hold that id as well)
+			d.BasedOn = nearMiss(t, rapid.SampledFrom(ids).Draw(t, "nearof"))
+			if !cycles {
+				for _, id := range ids {
+					if id == d.BasedOn {
+						d.BasedOn = "NoSuchStyle"
+					}
+				}
+			}
 		}
-		drawElems(t, &d, density)
+		if !big {
+			drawElems(t, &d, density)
+		}
+		if d.Via != "quick" && eighths(t, "extra", 2) {
+			drawExtra(t, &d, ids)
+		}
 		defs[i] = d
+	}
+	if big {
+		sparseElems(t, defs)
 	}
 	// registration order is independent of the graph (parents may be registered after their children)
 	order := rapid.Permutation(defs).Draw(t, "order")
@@ -197,12 +255,27 @@ func genCase(t *rapid.T) Case {
 		if rapid.Bool().Draw(t, "qkind") {
 			c.Queries = append(c.Queries, rapid.SampledFrom(predefinedIDs).Draw(t, "qpre"))
 		} else {
-			c.Queries = append(c.Queries, rapid.SampledFrom([]string{"NoSuchStyle", "", "S10", "heading1", "Normal "}).Draw(t, "qunk"))
+			c.Queries = append(c.Queries, rapid.SampledFrom([]string{"NoSuchStyle", "", "S10", "heading1", "Normal ", "near"}).Draw(t, "qunk"))
+			if k := len(c.Queries) - 1; c.Queries[k] == "near" {
+				c.Queries[k] = nearMiss(t, rapid.SampledFrom(ids).Draw(t, "qnearof"))
+			}
 		}
+	}
+	if c.Predefined && eighths(t, "load", 2) {
+		c.Load = rapid.SampledFrom([]string{"empty", "own", "prefix", "truncated"}).Draw(t, "loadshape")
+	}
+	if eighths(t, "probes", 3) {
+		c.Probes = genProbes(t, len(c.Queries), ids)
+	}
+	if eighths(t, "twin", 1) {
+		c.Twin = &Twin{Kind: rapid.SampledFrom([]string{"fresh", "clone"}).Draw(t, "twinkind"), Shift: 100}
 	}
 	// the registry changes after it has been queried, and is queried again after every change
 	if eighths(t, "edits", 3) {
 		c.Edits = genEdits(t, c.Predefined, defs, density, cycles)
+		if big && len(c.Edits) > 1 { // a long registry is resolved over again after one edit only
+			c.Edits = c.Edits[:1]
+		}
 	}
 	return c
 }
@@ -241,8 +314,20 @@ func genEdits(t *rapid.T, predefined bool, defs []StyleDef, density int, cycles 
 		}
 		id := rapid.SampledFrom(cand).Draw(t, "target")
 		_, present := cur[id]
-		op := rapid.SampledFrom([]string{"put", "put", "put", "remove", "remove", "modify", "modify"}).Draw(t, "op")
-		if !present {
+		op := rapid.SampledFrom([]string{"put", "put", "put", "put", "put", "put", "remove", "remove", "remove", "remove", "modify", "modify", "modify", "modify", "quick-dup", "xml"}).Draw(t, "op")
+		if op == "xml" {
+			// the XML entry points (what they amount to is decided by the call itself, see xmlOutcome; the generator goes on
+			// as if nothing had changed)
+			e := genXMLEdit(t, generated, len(defs)+j, density)
+			if !cycles {
+				for k := range e.Defs {
+					e.Defs[k].BasedOn = ""
+				}
+			}
+			edits = append(edits, e)
+			continue
+		}
+		if !present && op != "quick-dup" {
 			op = "put" // nothing to remove or to modify: the id gets registered
 		}
 		if op == "remove" {
@@ -258,6 +343,9 @@ func genEdits(t *rapid.T, predefined bool, defs []StyleDef, density int, cycles 
 			if present && d.Via == "quick" {
 				d.Via = "add" // CreateQuickStyle refuses a registered id
 			}
+		}
+		if op == "quick-dup" {
+			d.Via = "quick" // on a registered id: refused, nothing changes
 		}
 		switch rapid.SampledFrom([]string{"keep", "keep", "keep", "keep", "keep", "none", "other", "missing", "predef"}).Draw(t, "ebase") {
 		case "keep":
@@ -281,11 +369,18 @@ func genEdits(t *rapid.T, predefined bool, defs []StyleDef, density int, cycles 
 			}
 		}
 		drawElems(t, &d, density)
+		if d.Via != "quick" && op == "put" && eighths(t, "eextra", 1) {
+			drawExtra(t, &d, generated)
+		}
+		dd := d
+		if op == "quick-dup" && present {
+			edits = append(edits, Edit{Op: op, Def: &dd})
+			continue
+		}
 		cur[id] = d.BasedOn
 		if !present {
 			generated = append(generated, id)
 		}
-		dd := d
 		edits = append(edits, Edit{Op: op, Def: &dd})
 	}
 	return edits
@@ -303,8 +398,18 @@ func drawElems(t *rapid.T, d *StyleDef, density int) {
 			d.Elems = append(d.Elems, e)
 		}
 	}
-	// which attributes the multi-attribute elements populate: all of them, a drawn non-empty subset, or the
-	// pattern tied to the value code (no entry). CreateQuickStyle can only say it for spacing and indentation.
+	drawAttrs(t, d)
+	d.EmptyP = eighths(t, "emptyP", 1)
+	d.EmptyR = eighths(t, "emptyR", 1)
+	if d.Via != "quick" && eighths(t, "vals", 1) {
+		d.Vals = rapid.SampledFrom(valClasses).Draw(t, "valclass")
+	}
+}
+
+// drawAttrs draws which attributes the multi-attribute elements populate: all of them, a drawn non-empty subset, none at
+// all (the bare element, where the schema allows it) or the pattern tied to the value code (no entry). CreateQuickStyle
+// can only say it for spacing and indentation.
+func drawAttrs(t *rapid.T, d *StyleDef) {
 	for _, e := range d.Elems {
 		if _, multi := MultiAttr[e]; !multi || (d.Via == "quick" && e != "spacing" && e != "indentation") {
 			continue
@@ -321,6 +426,8 @@ func drawElems(t *rapid.T, d *StyleDef, density int) {
 				sides := rapid.SampledFrom(masks4).Draw(t, "sides")
 				la := rapid.SampledFrom(append([]int{15, 15, 15, 15}, masks4...)).Draw(t, "lineattrs")
 				m = sides | la<<4
+			case "empty":
+				m = emptyElem
 			}
 		default:
 			switch rapid.SampledFrom(attrModes).Draw(t, "attrs:"+e) {
@@ -328,6 +435,10 @@ func drawElems(t *rapid.T, d *StyleDef, density int) {
 				m = fullMask(e)
 			case "subset":
 				m = rapid.SampledFrom(masks4[:fullMask(e)]).Draw(t, "mask")
+			case "empty":
+				if canBeEmpty[e] && d.Via != "quick" {
+					m = emptyElem
+				}
 			}
 		}
 		if m >= 0 {
@@ -337,12 +448,10 @@ func drawElems(t *rapid.T, d *StyleDef, density int) {
 			d.Attrs[e] = m
 		}
 	}
-	d.EmptyP = eighths(t, "emptyP", 1)
-	d.EmptyR = eighths(t, "emptyR", 1)
 }
 
 var (
-	attrModes = []string{"full", "full", "full", "subset", "subset", "subset", "subset", "legacy"}
+	attrModes = []string{"full", "full", "full", "subset", "subset", "subset", "subset", "legacy", "empty"}
 	masks4    = []int{1, 2, 3, 4, 5, 6, 7, 8, 9, 10, 11, 12, 13, 14, 15}
 )
 
@@ -351,7 +460,7 @@ func fixedCases() []Case {
 		return nil
 	}
 	all := ElemNames
-	return []Case{
+	return append(widenedFixed(), []Case{
 		// the predefined registry alone
 		{Predefined: true, Queries: append(append([]string{}, predefinedIDs...), "Heading3", "nope")},
 		// three-level chain, each level defines a third of the elements
@@ -396,6 +505,94 @@ func fixedCases() []Case {
 			{Op: "put", Def: &StyleDef{ID: "Leaf", Idx: 8, Type: "paragraph", BasedOn: "Ghost", Elems: []string{"italic"}, Via: "add"}},
 			{Op: "remove", ID: "Base"},
 		}},
+	}...)
+}
+
+// widenedFixed: one hand-written case per area of the widened domain (so that every run meets each of them whatever the seed).
+func widenedFixed() []Case {
+	all := ElemNames
+	// a chain of 70 styles: the root defines every element, three styles in between define a few
+	var long []StyleDef
+	for i := 0; i < 70; i++ {
+		d := StyleDef{ID: fmt.Sprintf("S%d", i), Idx: i, Type: "paragraph", Via: "add"}
+		if i > 0 {
+			d.BasedOn = fmt.Sprintf("S%d", i-1)
+		}
+		switch i {
+		case 0:
+			d.Elems = all
+		case 9, 31, 63:
+			d.Elems = []string{"alignment", "size", "borders"}
+		case 17:
+			d.Via, d.Elems = "quick", []string{"bold", "spacing"}
+		}
+		long = append(long, d)
+	}
+	var longQ []string
+	for _, i := range []int{0, 9, 10, 11, 15, 16, 17, 31, 32, 33, 34, 48, 63, 64, 65, 66, 69} {
+		longQ = append(longQ, fmt.Sprintf("S%d", i))
+	}
+	return []Case{
+		{Styles: long, Queries: longQ},
+		// ids that differ in case, padding, composition; the library's own ids supplied by the caller; near-miss parents
+		{Predefined: true, Styles: []StyleDef{
+			{ID: "Normal", Idx: 1, Type: "paragraph", Elems: []string{"colour", "alignment"}, Via: "add"},
+			{ID: "normal", Idx: 2, Type: "paragraph", BasedOn: "Normal ", Elems: []string{"bold"}, Via: "custom"},
+			{ID: "Normal ", Idx: 3, Type: "paragraph", BasedOn: "NORMAL", Elems: []string{"italic", "size"}, Via: "add"},
+			{ID: "A", Idx: 4, Type: "paragraph", BasedOn: "a", Elems: []string{"strike"}, Via: "add"},
+			{ID: "a", Idx: 5, Type: "character", BasedOn: "A\t", Elems: []string{"highlight"}, Via: "quick"},
+			{ID: "A\t", Idx: 6, Type: "paragraph", BasedOn: "A1", Elems: []string{"keepNext"}, Via: "add"},
+			{ID: "A10", Idx: 7, Type: "paragraph", BasedOn: "A1", Elems: []string{"spacing"}, Via: "add"},
+			{ID: "\u00c4", Idx: 8, Type: "paragraph", BasedOn: "A\u0308", Elems: []string{"font"}, Via: "add"},
+			{ID: "Heading1", Idx: 9, Type: "paragraph", BasedOn: "heading1", Elems: []string{"underline"}, Via: "quick"},
+		}, Queries: []string{"Normal", "normal", "Normal ", "NORMAL", "A", "a", "A\t", "A1", "A10", "A ", "\u00c4", "A\u0308", "Heading1", "Heading2", "heading1", ""}},
+		// value classes and elements without attributes over ordinary parents, and the other way round
+		{Styles: []StyleDef{
+			{ID: "Base", Idx: 1, Type: "paragraph", Elems: all, Via: "add"},
+			{ID: "Dflt", Idx: 2, Type: "paragraph", BasedOn: "Base", Elems: all, Via: "add", Vals: "default"},
+			{ID: "Zero", Idx: 3, Type: "paragraph", BasedOn: "Base", Elems: all, Via: "custom", Vals: "zero"},
+			{ID: "Bare", Idx: 4, Type: "", BasedOn: "Base", Elems: []string{"spacing", "indentation", "borders", "font", "underline", "snapToGrid"}, Via: "add",
+				Attrs: map[string]int{"spacing": emptyElem, "indentation": emptyElem, "borders": emptyElem, "font": emptyElem, "underline": 2, "snapToGrid": 2}},
+			{ID: "Kid", Idx: 5, Type: "paragraph", BasedOn: "Bare", Elems: []string{"bold"}, Via: "add"},
+			{ID: "Pad", Idx: 6, Type: "paragraph", BasedOn: "Zero", Elems: []string{"alignment", "colour", "font"}, Via: "add", Vals: "pad"},
+			{ID: "Neg", Idx: 7, Type: "paragraph", BasedOn: "Dflt", Elems: []string{"indentation", "size", "outlineLevel"}, Via: "add", Vals: "neg"},
+			{ID: "Long", Idx: 8, Type: "character", BasedOn: "Neg", Elems: []string{"font", "highlight"}, Via: "add", Vals: "long"},
+			{ID: "Plain", Idx: 9, Type: "paragraph", BasedOn: "Dflt", Elems: []string{"alignment", "size", "spacing"}, Via: "add"},
+		}, Queries: []string{"Base", "Dflt", "Zero", "Bare", "Kid", "Pad", "Neg", "Long", "Plain"},
+			Probes: []Probe{{At: 0, Kind: "bytype", Arg: "paragraph"}, {At: 4, Kind: "all"}, {At: 9, Kind: "get", Arg: "Bare"}}},
+		// parts of a definition outside the 18 elements, read-only calls in between, a refused CreateQuickStyle, refused XML
+		// registrations, the registry first handed to LoadStylesFromDocument
+		{Predefined: true, Load: "own", Styles: []StyleDef{
+			{ID: "T", Idx: 1, Type: "table", Elems: []string{"alignment"}, Via: "add", Extra: &StyleExtra{Tbl: 0x7FF, TrPr: true, TcPr: true, Next: "T"}},
+			{ID: "R", Idx: 2, Type: "table", BasedOn: "T", Elems: []string{"bold"}, Via: "custom", Extra: &StyleExtra{TrPr: true, NoName: true, Builtin: true}},
+			{ID: "C", Idx: 3, Type: "paragraph", BasedOn: "R", Elems: []string{"size"}, Via: "add", Extra: &StyleExtra{TcPr: true, Default: true, Tbl: 0x800}},
+			{ID: "E", Idx: 4, Type: "paragraph", Elems: []string{"italic"}, Via: "add", Extra: &StyleExtra{EmptyBasedOn: true, NoName: true}},
+			{ID: "F", Idx: 5, Type: "paragraph", BasedOn: "E", Elems: []string{"colour"}, Via: "custom", Extra: &StyleExtra{EmptyBasedOn: true, Next: "Normal"}},
+		}, Queries: []string{"T", "R", "C", "E", "F", "Normal", "Title", "a1", "X0"},
+			Probes: []Probe{{At: 0, Kind: "allinfo"}, {At: 1, Kind: "bytype", Arg: "table"}, {At: 2, Kind: "headings"}, {At: 3, Kind: "parainfo"}, {At: 4, Kind: "charinfo"}, {At: 5, Kind: "headinginfo"}, {At: 9, Kind: "bytype", Arg: ""}},
+			Edits: []Edit{
+				{Op: "quick-dup", Def: &StyleDef{ID: "E", Idx: 6, Type: "paragraph", BasedOn: "T", Elems: []string{"bold", "spacing"}, Via: "quick"}},
+				{Op: "xml-parse", Shape: "own", Defs: []StyleDef{{ID: "X0", Idx: 7, Type: "paragraph", BasedOn: "E", Elems: []string{"strike"}, Via: "add"}}},
+				{Op: "xml-merge", Shape: "truncated", Defs: []StyleDef{{ID: "E", Idx: 8, Type: "paragraph", Elems: []string{"strike"}, Via: "add"}, {ID: "X0", Idx: 9, Type: "paragraph", Elems: []string{"bold"}, Via: "add"}}},
+				{Op: "quick-dup", Def: &StyleDef{ID: "X1", Idx: 10, Type: "paragraph", BasedOn: "F", Elems: []string{"bold"}, Via: "quick"}},
+			}},
+		// two registries used alternately: a clone taken before the source is edited, and a second manager with other values
+		{Styles: []StyleDef{
+			{ID: "Base", Idx: 0, Type: "paragraph", Elems: []string{"spacing", "colour"}, Via: "add"},
+			{ID: "Kid", Idx: 1, Type: "paragraph", BasedOn: "Late", Elems: []string{"bold"}, Via: "custom"},
+			{ID: "Leaf", Idx: 2, Type: "paragraph", BasedOn: "Kid", Elems: []string{"size"}, Via: "quick"},
+		}, Queries: []string{"Base", "Kid", "Leaf", "Late", "Other"}, Twin: &Twin{Kind: "clone", Shift: 100}, Edits: []Edit{
+			{Op: "put", Def: &StyleDef{ID: "Late", Idx: 3, Type: "paragraph", BasedOn: "Base", Elems: []string{"italic", "alignment"}, Via: "add"}},
+			{Op: "put", Def: &StyleDef{ID: "Other", Idx: 4, Type: "character", Elems: []string{"underline"}, Via: "custom"}},
+			{Op: "modify", Def: &StyleDef{ID: "Base", Idx: 5, Type: "paragraph", Elems: []string{"highlight"}, Via: "add"}},
+			{Op: "remove", ID: "Kid"},
+		}},
+		{Predefined: true, Styles: []StyleDef{
+			{ID: "Base", Idx: 0, Type: "paragraph", BasedOn: "Heading1", Elems: []string{"spacing", "colour"}, Via: "add"},
+			{ID: "Kid", Idx: 1, Type: "paragraph", BasedOn: "Base", Elems: []string{"bold", "colour"}, Via: "quick"},
+		}, Queries: []string{"Base", "Kid", "Heading1", "Normal"}, Twin: &Twin{Kind: "fresh", Shift: 100}, Edits: []Edit{
+			{Op: "put", Def: &StyleDef{ID: "Base", Idx: 2, Type: "paragraph", Elems: []string{"italic"}, Via: "add"}},
+		}},
 	}
 }
 
@@ -416,6 +613,26 @@ func setup(c Case) (sm *style.StyleManager, reg registry, err error) {
 			reg[id] = m
 		}
 	}
+	if c.Load != "" {
+		// the way a registry of an opened document comes about. The doc comment: no data, or data that cannot be parsed =
+		// the default styles; otherwise the parsed definitions (taken as loaded: definitions are inputs of this property)
+		data := stylesXML(c.Styles, c.Load)
+		if err := sm.LoadStylesFromDocument(data); err != nil || len(data) == 0 {
+			for id := range reg {
+				delete(reg, id)
+			}
+			for id, m := range predefinedModel() {
+				reg[id] = m
+			}
+		} else {
+			for id := range reg {
+				delete(reg, id)
+			}
+			for _, st := range sm.GetAllStyles() {
+				reg[st.StyleID] = snapshotStyle(st)
+			}
+		}
+	}
 	api := style.NewQuickStyleAPI(sm)
 	for _, d := range c.Styles {
 		if err := register(sm, api, reg, d, d.Via); err != nil {
@@ -427,10 +644,14 @@ func setup(c Case) (sm *style.StyleManager, reg registry, err error) {
 
 // register puts one definition into the registry through the public API (via: add | custom | quick) and into the model.
 func register(sm *style.StyleManager, api *style.QuickStyleAPI, reg registry, d StyleDef, via string) error {
+	if _, had := reg[d.ID]; had && via == "quick" {
+		via = "add" // CreateQuickStyle refuses a registered id (a generated style under the id of a predefined one)
+	}
 	switch via {
 	case "custom":
 		st := sm.CreateCustomStyle(d.ID, "name of "+d.ID, style.StyleType(d.Type), d.BasedOn)
 		st.ParagraphPr, st.RunPr = d.props()
+		d.applyExtra(st) // fields assigned to the registered object, as CreateQuickStyle does
 		reg[d.ID] = snapshotStyle(d.literal())
 	case "quick":
 		st, e := api.CreateQuickStyle(d.quickConfig())
@@ -451,11 +672,24 @@ func applyEdit(sm *style.StyleManager, api *style.QuickStyleAPI, e Edit, kind st
 	switch kind {
 	case "remove", "remove-absent":
 		sm.RemoveStyle(e.ID)
+	case "refused":
+		// CreateQuickStyle for a registered id: whatever it answers, the reference says nothing changes
+		api.CreateQuickStyle(e.Def.quickConfig())
+	case "xml-refused", "xml-parse", "xml-merge":
+		data := stylesXML(e.Defs, e.Shape)
+		if e.Op == "xml-parse" {
+			sm.ParseStylesFromXML(data)
+		} else {
+			sm.MergeStylesFromXML(data)
+		}
 	case "replace", "add":
 		d := *e.Def
 		via := d.Via
 		if via == "quick" && kind == "replace" {
 			via = "add"
+		}
+		if e.Op == "quick-dup" {
+			via, d.Via = "quick", "quick"
 		}
 		return register(sm, api, registry{}, d, via)
 	case "modify":
@@ -785,6 +1019,25 @@ func runHere(c Case, sm *style.StyleManager, reg registry, res *kit.Result) *kit
 		}
 	}
 
+	labelWidened(res, c, reg)
+	if c.Load != "" {
+		res.Label("load")
+		res.Label("load:" + c.Load)
+	}
+	var twin *twinState
+	if c.Twin != nil {
+		var err error
+		if p, st := kit.Try(func() { twin, err = setupTwin(c, sm, reg) }); p != nil {
+			res.Fail("C14.V0.setup", "setting up the second registry (%s) panicked: %v [%s]", c.Twin.Kind, p, st)
+			return res
+		} else if err != nil {
+			res.Fail("C14.V0.setup", "setting up the second registry (%s): %v", c.Twin.Kind, err)
+			return res
+		}
+		res.Label("twin")
+		res.Label("twin:" + twin.kind)
+	}
+
 	// ---- V1 / V2 per query
 	var shape []string
 	for _, d := range c.Styles {
@@ -825,187 +1078,26 @@ func runHere(c Case, sm *style.StyleManager, reg registry, res *kit.Result) *kit
 		before := snapshotAll(sm)
 		beforeDeep := copyAll(sm)
 		for qi, q := range queries {
-			want := reg.resolve(q)
+			for _, p := range c.Probes {
+				if p.At == qi {
+					probe(res, sm, api, p)
+				}
+			}
 			tag := fmt.Sprintf("[q=%d %q]", qi, q)
 			if round > 0 {
 				tag = fmt.Sprintf("[q=%d r=%d %q after %s]", qi, round, q, describeEdits(c.Edits[:round], kinds))
 			}
-
-			// V1: GetStyleWithInheritance
-			var got *style.Style
-			res.Eval("C14.V1.terminates")
-			if p, st := kit.Try(func() { got = sm.GetStyleWithInheritance(q) }); p != nil {
-				res.Fail("C14.V1.terminates", "%s GetStyleWithInheritance panicked: %v [%s]", tag, p, st)
-				continue
+			if tok := judgeQuery(res, sm, api, reg, q, tag, true); tok != "" {
+				shape = append(shape, tok)
 			}
-			if want == nil {
-				res.Label("query:unknown")
-				res.Eval("C14.V1.unknown")
-				if got != nil {
-					res.Fail("C14.V1.unknown", "%s no such style is registered, yet GetStyleWithInheritance returned %s", tag, Render(got))
-				}
-			} else {
-				res.Eval("C14.V1.found")
-				if got == nil {
-					res.Fail("C14.V1.found", "%s the style is registered, yet GetStyleWithInheritance returned nil", tag)
-				} else {
-					obs := Observe(got)
-					for _, e := range ElemNames {
-						res.Eval("C14.V1." + e)
-						w, okw := want.Elems[e]
-						g, okg := obs[e]
-						// field by field against the element of the defining style (every attribute, nested sides included)
-						var fd []string
-						if okw && okg {
-							fieldDiff(elemOf(got, e), elemOf(want.Src[e], e), e, false, &fd, 6)
-						}
-						if okw != okg || w != g || len(fd) > 0 {
-							from := "no style on the chain defines it"
-							if okw {
-								from = fmt.Sprintf("defined by %q at depth %d", want.Chain[want.From[e]], want.From[e])
-							}
-							attrs := ""
-							if len(fd) > 0 {
-								attrs = "; differing attributes (got vs reference): " + strings.Join(fd, ", ")
-							}
-							res.Fail("C14.V1."+e, "%s element %s: got %s, should be %s (%s)%s; chain %q ends in %s", tag, e, show(g, okg), show(w, okw), from, attrs, want.Chain, want.End)
-						}
-					}
-				}
-				// labels of what this query exercised
-				depth := len(want.Chain)
-				inh, ovr, maxFrom := 0, 0, 0
-				for e, k := range want.From {
-					if k > 0 {
-						inh++
-						if k > maxFrom {
-							maxFrom = k
-						}
-					}
-					// overridden: a farther style on the chain also defines the element
-					for _, id := range want.Chain[k+1:] {
-						if _, has := reg[id].Elems[e]; has {
-							ovr++
-							break
-						}
-					}
-				}
-				if depth >= 2 {
-					res.Label("depth>=2")
-				}
-				if depth >= 3 {
-					res.Label("depth>=3")
-				}
-				if depth >= 6 {
-					res.Label("depth>=6")
-				}
-				if depth >= 10 {
-					res.Label("depth>=10")
-				}
-				if inh > 0 {
-					res.Label("inherit")
-				}
-				if maxFrom >= 2 {
-					res.Label("inherit:depth>=2")
-				}
-				if ovr > 0 {
-					res.Label("override")
-				}
-				if want.End == "cycle" {
-					res.Label("has-cycle")
-					if depth == 2 {
-						res.Label("cycle:2")
-					} else if depth > 2 {
-						res.Label("cycle:n")
-					}
-				}
-				if k, ok := want.From["snapToGrid"]; ok {
-					res.Label("snapToGrid-defined")
-					if k > 0 {
-						res.Label("snapToGrid-inherited")
-					}
-				}
-				// attribute-level classes: the nearest definition of a multi-attribute element lacks an attribute that a
-				// farther definition on the chain has (an attribute-wise merge would leak it into the result)
-				leak := 0
-				for _, e := range MultiElems {
-					k, ok := want.From[e]
-					if !ok {
-						continue
-					}
-					near := attrsOf(reg[want.Chain[k]].Def, e)
-					partial := len(near) < attrTotal[e]
-					if k > 0 && partial {
-						res.Label("inherit-partial-element")
-					}
-					first := true
-					for _, id := range want.Chain[k+1:] {
-						far := attrsOf(reg[id].Def, e)
-						if far == nil {
-							continue
-						}
-						missing := false
-						for a := range far {
-							if _, has := near[a]; !has {
-								missing = true
-							}
-						}
-						if missing {
-							leak++
-							res.Label("partial-over-ancestor")
-							res.Label("partial-over-ancestor:" + e)
-							if k > 0 {
-								res.Label("partial-over-ancestor:inherited") // the partial element is itself inherited
-							}
-							if first && len(far) == attrTotal[e] {
-								res.Label("partial-over-full-parent")
-								res.Label("partial-" + e + "-over-full-parent")
-							}
-							if e == "spacing" && near["line"] != "" && near["lineRule"] == "" && far["lineRule"] != "" {
-								res.Label("spacing:line-without-rule-over-rule")
-							}
-							break
-						}
-						if first && partial && len(far) < attrTotal[e] {
-							res.Label("partial-over-partial-parent")
-						}
-						first = false
-					}
-				}
-				if depth >= 2 && (inh > 0 || ovr > 0) {
-					res.Nontrivial = true
-				}
-				shape = append(shape, fmt.Sprintf("q%d:%s:%d:%d:%d", depth, want.End, inh, ovr, leak))
+			if twin != nil {
+				// the other registry, alternately: its answers follow its own definitions, whatever the first one holds
+				judgeQuery(res, twin.sm, twin.api, twin.reg, q, fmt.Sprintf("[q=%d r=%d twin(%s) %q]", qi, round, twin.kind, q), false)
 			}
-
-			// V2: the two derived views
-			var m map[string]interface{}
-			var aerr error
-			res.Eval("C14.V2.apply")
-			if p, st := kit.Try(func() { m, aerr = sm.ApplyStyleToXML(q) }); p != nil {
-				res.Fail("C14.V2.apply", "%s ApplyStyleToXML panicked: %v [%s]", tag, p, st)
-			} else if want == nil {
-				if aerr == nil {
-					res.Fail("C14.V2.apply", "%s no such style, yet ApplyStyleToXML returned no error (%v)", tag, m)
-				}
-			} else if aerr != nil {
-				res.Fail("C14.V2.apply", "%s ApplyStyleToXML failed for a registered style: %v", tag, aerr)
-			} else {
-				checkApply(res, tag, q, reg[q], want, m)
-			}
-			var info *style.StyleInfo
-			var ierr error
-			res.Eval("C14.V2.info")
-			if p, st := kit.Try(func() { info, ierr = api.GetStyleInfo(q) }); p != nil {
-				res.Fail("C14.V2.info", "%s GetStyleInfo panicked: %v [%s]", tag, p, st)
-			} else if want == nil {
-				if ierr == nil {
-					res.Fail("C14.V2.info", "%s no such style, yet GetStyleInfo returned no error (%+v)", tag, info)
-				}
-			} else if ierr != nil || info == nil {
-				res.Fail("C14.V2.info", "%s GetStyleInfo failed for a registered style: %v", tag, ierr)
-			} else if info.ID != q || string(info.Type) != reg[q].Type || info.BasedOn != reg[q].BasedOn {
-				res.Fail("C14.V2.info", "%s GetStyleInfo says id=%q type=%q basedOn=%q, registered is id=%q type=%q basedOn=%q", tag, info.ID, info.Type, info.BasedOn, q, reg[q].Type, reg[q].BasedOn)
+		}
+		for _, p := range c.Probes {
+			if p.At >= len(queries) {
+				probe(res, sm, api, p)
 			}
 		}
 		// ---- V3: the queries of this round changed nothing that is registered
@@ -1016,12 +1108,331 @@ func runHere(c Case, sm *style.StyleManager, reg registry, res *kit.Result) *kit
 		} else if d := diffSnap(before, after); d != "" {
 			res.Fail("C14.V3", "[r=%d] the registry differs after the queries %q: %s", round, queries, d)
 		}
+		if twin != nil {
+			// the second registry is never edited: neither its own queries nor anything done to the first one may show in it
+			clause := "C14.V3"
+			if twin.kind == "clone" {
+				clause = "C14.V4.source-to-clone"
+			}
+			res.Eval(clause)
+			if d := diffSnap(twin.before, snapshotAll(twin.sm)); d != "" {
+				res.Fail(clause, "[r=%d] the second registry (%s), which nobody edits, differs from what it was when it was set up: %s", round, twin.kind, d)
+			}
+		}
 	}
 	res.Shape = strings.Join(shape, " ")
 
 	// ---- V4: clone independence (against the registry as it is now, so that a V3 failure is not reported twice)
-	checkClone(res, sm, after)
+	checkClone(res, sm, after, queries, regs[len(regs)-1])
 	return res
+}
+
+// probe makes a read-only call of the history; a panic is a failure of the set-up (the clauses judge what follows).
+func probe(res *kit.Result, sm *style.StyleManager, api *style.QuickStyleAPI, p Probe) {
+	res.Label("probe")
+	res.Label("probe:" + p.Kind)
+	if pv, st := kit.Try(func() { runProbe(sm, api, p) }); pv != nil {
+		res.Fail("C14.V0.setup", "the read-only call %s(%q) panicked: %v [%s]", p.Kind, p.Arg, pv, st)
+	}
+}
+
+// labelWidened names the input classes of the widened domain a case belongs to.
+func labelWidened(res *kit.Result, c Case, reg registry) {
+	n := len(c.Styles)
+	for _, k := range []int{11, 17, 33, 65} {
+		if n >= k {
+			res.Label(fmt.Sprintf("styles>=%d", k))
+		}
+		if len(reg) >= k {
+			res.Label(fmt.Sprintf("registered>=%d", k))
+		}
+	}
+	lower := map[string]int{}
+	trimmed := map[string]int{}
+	ids := map[string]bool{}
+	for _, d := range c.Styles {
+		ids[d.ID] = true
+		lower[strings.ToLower(d.ID)]++
+		trimmed[strings.TrimSpace(d.ID)]++
+	}
+	pm := predefinedModel()
+	for _, d := range c.Styles {
+		if lower[strings.ToLower(d.ID)] > 1 {
+			res.Label("ids:differ-in-case-only")
+		}
+		if trimmed[strings.TrimSpace(d.ID)] > 1 {
+			res.Label("ids:differ-in-padding-only")
+		}
+		for _, o := range c.Styles {
+			if o.ID != d.ID && strings.HasPrefix(o.ID, d.ID) {
+				res.Label("ids:prefix-of-another")
+				break
+			}
+		}
+		if _, ok := pm[d.ID]; ok {
+			res.Label("ids:predefined-id-supplied")
+			if c.Predefined {
+				res.Label("ids:predefined-replaced")
+			}
+		}
+		if d.BasedOn != "" && !ids[d.BasedOn] {
+			for id := range ids {
+				if strings.EqualFold(strings.TrimSpace(id), strings.TrimSpace(d.BasedOn)) {
+					res.Label("based-on:near-miss")
+					break
+				}
+			}
+		}
+		if d.Vals != "" && d.Via != "quick" && len(d.Elems) > 0 {
+			res.Label("vals")
+			res.Label("vals:" + d.Vals)
+		}
+		for _, e := range d.Elems {
+			if d.Via != "quick" && canBeEmpty[e] && d.Attrs[e]&emptyElem != 0 {
+				res.Label("empty-element")
+				res.Label("empty-element:" + e)
+			}
+		}
+		if x := d.Extra; x != nil && d.Via != "quick" {
+			res.Label("extra")
+			if x.Tbl != 0 {
+				res.Label("extra:tblPr")
+			}
+			if x.TrPr || x.TcPr {
+				res.Label("extra:trPr/tcPr")
+			}
+			if x.Next != "" {
+				res.Label("extra:next")
+			}
+			if x.EmptyBasedOn && d.BasedOn == "" {
+				res.Label("extra:empty-basedOn")
+			}
+			if x.NoName || x.Builtin || x.Default {
+				res.Label("extra:flags")
+			}
+		}
+	}
+	for _, q := range c.Queries {
+		if _, ok := reg[q]; ok {
+			continue
+		}
+		for id := range ids {
+			if q != id && strings.EqualFold(strings.TrimSpace(id), strings.TrimSpace(q)) {
+				res.Label("query:near-miss")
+				break
+			}
+		}
+	}
+}
+
+// judgeQuery resolves one id in one registry through the three entry points and compares with the reference registry reg
+// (V1, V2). primary: the query belongs to the registry of the case itself (labels, the non-trivial rule and the shape
+// token are taken from it); the queries of the twin, of a clone and the repeated ones are judged only.
+func judgeQuery(res0 *kit.Result, sm *style.StyleManager, api *style.QuickStyleAPI, reg registry, q, tag string, primary bool) (tok string) {
+	res := res0
+	if !primary {
+		// judged, not described: failures and clause counts go to the real result, labels and the rest are dropped
+		res = &kit.Result{}
+		defer func() {
+			res0.Failures = append(res0.Failures, res.Failures...)
+			for k, n := range res.Clauses {
+				for i := 0; i < n; i++ {
+					res0.Eval(k)
+				}
+			}
+		}()
+	}
+	want := reg.resolve(q)
+
+	// V1: GetStyleWithInheritance
+	var got *style.Style
+	res.Eval("C14.V1.terminates")
+	if p, st := kit.Try(func() { got = sm.GetStyleWithInheritance(q) }); p != nil {
+		res.Fail("C14.V1.terminates", "%s GetStyleWithInheritance panicked: %v [%s]", tag, p, st)
+		return ""
+	}
+	if want == nil {
+		res.Label("query:unknown")
+		res.Eval("C14.V1.unknown")
+		if got != nil {
+			res.Fail("C14.V1.unknown", "%s no such style is registered, yet GetStyleWithInheritance returned %s", tag, Render(got))
+		}
+	} else {
+		res.Eval("C14.V1.found")
+		if got == nil {
+			res.Fail("C14.V1.found", "%s the style is registered, yet GetStyleWithInheritance returned nil", tag)
+		} else {
+			obs := Observe(got)
+			for _, e := range ElemNames {
+				res.Eval("C14.V1." + e)
+				w, okw := want.Elems[e]
+				g, okg := obs[e]
+				// field by field against the element of the defining style (every attribute, nested sides included)
+				var fd []string
+				if okw && okg && w != g { // (equal canonical texts leave nothing for the field walk: it names the attributes that differ)
+					fieldDiff(elemOf(got, e), elemOf(want.Src[e], e), e, false, &fd, 6)
+				}
+				if okw != okg || w != g || len(fd) > 0 {
+					from := "no style on the chain defines it"
+					if okw {
+						from = fmt.Sprintf("defined by %q at depth %d", want.Chain[want.From[e]], want.From[e])
+					}
+					attrs := ""
+					if len(fd) > 0 {
+						attrs = "; differing attributes (got vs reference): " + strings.Join(fd, ", ")
+					}
+					res.Fail("C14.V1."+e, "%s element %s: got %s, should be %s (%s)%s; chain %q ends in %s", tag, e, show(g, okg), show(w, okw), from, attrs, want.Chain, want.End)
+				}
+			}
+		}
+		// labels of what this query exercised
+		depth := len(want.Chain)
+		inh, ovr, maxFrom := 0, 0, 0
+		for e, k := range want.From {
+			if k > 0 {
+				inh++
+				if k > maxFrom {
+					maxFrom = k
+				}
+			}
+			// overridden: a farther style on the chain also defines the element
+			for _, id := range want.Chain[k+1:] {
+				if _, has := reg[id].Elems[e]; has {
+					ovr++
+					break
+				}
+			}
+		}
+		if depth >= 2 {
+			res.Label("depth>=2")
+		}
+		if depth >= 3 {
+			res.Label("depth>=3")
+		}
+		if depth >= 6 {
+			res.Label("depth>=6")
+		}
+		if depth >= 10 {
+			res.Label("depth>=10")
+		}
+		for _, k := range []int{11, 17, 33, 65} {
+			if depth >= k {
+				res.Label(fmt.Sprintf("depth>=%d", k))
+			}
+			if maxFrom >= k-1 {
+				res.Label(fmt.Sprintf("inherit:depth>=%d", k-1))
+			}
+		}
+		if inh > 0 {
+			res.Label("inherit")
+		}
+		if maxFrom >= 2 {
+			res.Label("inherit:depth>=2")
+		}
+		if ovr > 0 {
+			res.Label("override")
+		}
+		if want.End == "cycle" {
+			res.Label("has-cycle")
+			if depth == 2 {
+				res.Label("cycle:2")
+			} else if depth > 2 {
+				res.Label("cycle:n")
+			}
+		}
+		if k, ok := want.From["snapToGrid"]; ok {
+			res.Label("snapToGrid-defined")
+			if k > 0 {
+				res.Label("snapToGrid-inherited")
+			}
+		}
+		// attribute-level classes: the nearest definition of a multi-attribute element lacks an attribute that a
+		// farther definition on the chain has (an attribute-wise merge would leak it into the result)
+		leak := 0
+		for _, e := range MultiElems {
+			k, ok := want.From[e]
+			if !ok {
+				continue
+			}
+			near := attrsOf(reg[want.Chain[k]].Def, e)
+			partial := len(near) < attrTotal[e]
+			if k > 0 && partial {
+				res.Label("inherit-partial-element")
+			}
+			first := true
+			for _, id := range want.Chain[k+1:] {
+				far := attrsOf(reg[id].Def, e)
+				if far == nil {
+					continue
+				}
+				missing := false
+				for a := range far {
+					if _, has := near[a]; !has {
+						missing = true
+					}
+				}
+				if missing {
+					leak++
+					res.Label("partial-over-ancestor")
+					res.Label("partial-over-ancestor:" + e)
+					if k > 0 {
+						res.Label("partial-over-ancestor:inherited") // the partial element is itself inherited
+					}
+					if first && len(far) == attrTotal[e] {
+						res.Label("partial-over-full-parent")
+						res.Label("partial-" + e + "-over-full-parent")
+					}
+					if e == "spacing" && near["line"] != "" && near["lineRule"] == "" && far["lineRule"] != "" {
+						res.Label("spacing:line-without-rule-over-rule")
+					}
+					break
+				}
+				if first && partial && len(far) < attrTotal[e] {
+					res.Label("partial-over-partial-parent")
+				}
+				first = false
+			}
+		}
+		if depth >= 2 && (inh > 0 || ovr > 0) {
+			res.Nontrivial = true
+		}
+		tok = fmt.Sprintf("q%d:%s:%d:%d:%d", depth, want.End, inh, ovr, leak)
+	}
+
+	if !primary {
+		return tok // the derived views are judged on the queries of the case's own registry
+	}
+
+	// V2: the two derived views
+	var m map[string]interface{}
+	var aerr error
+	res.Eval("C14.V2.apply")
+	if p, st := kit.Try(func() { m, aerr = sm.ApplyStyleToXML(q) }); p != nil {
+		res.Fail("C14.V2.apply", "%s ApplyStyleToXML panicked: %v [%s]", tag, p, st)
+	} else if want == nil {
+		if aerr == nil {
+			res.Fail("C14.V2.apply", "%s no such style, yet ApplyStyleToXML returned no error (%v)", tag, m)
+		}
+	} else if aerr != nil {
+		res.Fail("C14.V2.apply", "%s ApplyStyleToXML failed for a registered style: %v", tag, aerr)
+	} else {
+		checkApply(res, tag, q, reg[q], want, m)
+	}
+	var info *style.StyleInfo
+	var ierr error
+	res.Eval("C14.V2.info")
+	if p, st := kit.Try(func() { info, ierr = api.GetStyleInfo(q) }); p != nil {
+		res.Fail("C14.V2.info", "%s GetStyleInfo panicked: %v [%s]", tag, p, st)
+	} else if want == nil {
+		if ierr == nil {
+			res.Fail("C14.V2.info", "%s no such style, yet GetStyleInfo returned no error (%+v)", tag, info)
+		}
+	} else if ierr != nil || info == nil {
+		res.Fail("C14.V2.info", "%s GetStyleInfo failed for a registered style: %v", tag, ierr)
+	} else if info.ID != q || string(info.Type) != reg[q].Type || info.BasedOn != reg[q].BasedOn {
+		res.Fail("C14.V2.info", "%s GetStyleInfo says id=%q type=%q basedOn=%q, registered is id=%q type=%q basedOn=%q", tag, info.ID, info.Type, info.BasedOn, q, reg[q].Type, reg[q].BasedOn)
+	}
+	return tok
 }
 
 func describeEdits(edits []Edit, kinds []string) string {
@@ -1144,7 +1555,7 @@ func checkApply(res *kit.Result, tag, q string, def *mStyle, want *resolved, m m
 	}
 }
 
-func checkClone(res *kit.Result, sm *style.StyleManager, before map[string]string) {
+func checkClone(res *kit.Result, sm *style.StyleManager, before map[string]string, queries []string, reg registry) {
 	var cl *style.StyleManager
 	res.Eval("C14.V4.equal")
 	if p, st := kit.Try(func() { cl = sm.Clone() }); p != nil || cl == nil {
@@ -1180,11 +1591,26 @@ func checkClone(res *kit.Result, sm *style.StyleManager, before map[string]strin
 		}
 		res.Fail("C14.V4.noshare", "clone and source share storage: %s", strings.Join(shared, "; "))
 	}
+	// the clone is a registry like any other: it resolves every id as the reference registry of the source says (the source
+	// is asked in between: two registries used alternately)
+	api, apiCl := style.NewQuickStyleAPI(sm), style.NewQuickStyleAPI(cl)
+	for qi, q := range queries {
+		judgeQuery(res, cl, apiCl, reg, q, fmt.Sprintf("[q=%d clone %q]", qi, q), false)
+		if qi%4 == 1 {
+			judgeQuery(res, sm, api, reg, q, fmt.Sprintf("[q=%d source-next-to-clone %q]", qi, q), false)
+		}
+	}
 	// mutate the whole clone (values, plus one removal and one addition): the source must not move
 	res.Eval("C14.V4.clone-to-source")
 	wreck(cl)
 	if d := diffSnap(before, snapshotAll(sm)); d != "" {
 		res.Fail("C14.V4.clone-to-source", "changing the clone changed the source: %s", d)
+	}
+	// ... and resolves as before
+	for qi, q := range queries {
+		if qi < 3 || qi == len(queries)-1 {
+			judgeQuery(res, sm, api, reg, q, fmt.Sprintf("[q=%d source-after-clone-changed %q]", qi, q), false)
+		}
 	}
 	// and the other way round (last: the source is unusable afterwards)
 	res.Eval("C14.V4.source-to-clone")
